@@ -40,6 +40,12 @@ func replPool() []string {
 		model.BiLen + " = 0; " + model.BiLen + "([1]);",              // ... followed by a failing use in the same line
 		model.BiMax + " = nil; " + model.KwPrint + " " + model.BiMax + ";", // ... and a print of the rebound name
 		model.KwPrint + " " + model.BiMax + "(2, 7);",
+		model.KwPrint + " \"pre\"; " + model.KwBreak + ";",            // output, then a stray break
+		model.KwPrint + " \"pre\"; " + model.KwReturn + " 1;",         // output, then a stray return
+		model.KwPrint + " \"pre\"; " + model.KwContinue + ";",         // output, then a stray continue
+		model.KwPrint + " \"pre\"; 1 / 0; " + model.KwPrint + " \"post\";", // output, a runtime error, more output
+		"\"echoed\"; zz;",                                              // an echo, then an undefined name
+		model.KwPrint + " " + model.BiInput + ";",                      // a built-in printed (no call)
 		"# @ # @ # @ # @ # @ # @ # @", // a line with many lexical errors
 		"1 +; 2 +; ) ) ) ; ; ;",        // a line with a syntax error followed by more garbage
 	}
@@ -267,9 +273,9 @@ func lineClass(pool []string, seq []int, k int) string {
 		return "start"
 	}
 	switch i := seq[k-1]; {
-	case i >= 6 && i <= 9, i == 19, i >= 26:
+	case i >= 6 && i <= 9, i == 19, i >= 32:
 		return "static-error"
-	case i >= 10 && i <= 13, i == 21, i == 23:
+	case i >= 10 && i <= 13, i == 21, i == 23, i >= 26 && i <= 30:
 		return "runtime-error"
 	}
 	return "valid-line"
